@@ -462,11 +462,22 @@ def _repeated_lookup(reps):
                        "concurrent": False, "loss": "D", "timeout": 7.5}
 
 
+def _small_ids_all_pairs():
+    """node IDs 1..5 (and 8..13, the numeric values of level-2 addresses) joined in ascending and descending order, so that
+    IDs coincide numerically with other nodes' addresses; then every node sends to every other node ID"""
+    for ids in ([1, 2, 3, 4, 5], [5, 4, 3, 2, 1], [3, 9, 1, 11, 5, 10, 12], [12, 10, 5, 11, 1, 9, 3]):
+        nodes = [{"id": i, "kind": "mesh", "offset": 400 * n, "mcu": {"spi": 50, "jit": 0, "seed": n, "poll": 100}} for n, i in enumerate(ids)]
+        script = [["send", a, "of", b, 1, "%02x%02x" % (a, b)] for a in range(len(ids)) for b in range(len(ids)) if a != b]
+        yield {"nodes": nodes, "master_mcu": {"spi": 50, "jit": 0, "seed": 7, "poll": 100}, "script": script, "concurrent": False, "loss": "D", "timeout": 7.5}
+
+
 def parts(tier):
     if tier == "quick":
         return [Part("relay-child-stagger-sweep", "enum", _pair_sweep(200), exhaustive=True),
+                Part("ids-equal-to-address-values-all-pairs", "enum", _small_ids_all_pairs, exhaustive=True),
                 Part("repeated-identical-lookups", "enum", lambda: _repeated_lookup(4), exhaustive=True),
                 Part("release-after-send", "enum", _release_after_send, exhaustive=True), Part("generated", "gen", lambda: _strategy(8), n=96)]
     return [Part("relay-child-stagger-sweep", "enum", _pair_sweep(25), exhaustive=True),
+            Part("ids-equal-to-address-values-all-pairs", "enum", _small_ids_all_pairs, exhaustive=True),
             Part("repeated-identical-lookups", "enum", lambda: _repeated_lookup(8), exhaustive=True),
             Part("release-after-send", "enum", _release_after_send, exhaustive=True), Part("generated", "gen", lambda: _strategy(12), n=3000)]
